@@ -67,6 +67,8 @@ class Game2048H(Harness):
     THOROUGH = ["Game2048@4"]
     INVALID = "ignore"
     REF_DRAWS = True       # the reference reads the spawned tile (fresh randomness) from S'
+    # bounded by design (2048 has no largest tile and no time limit): exponents <= 5 and step_count <= 7 are bounds of the claim
+    OPEN_DOMAIN = (".board", ".step_count")
 
     def __init__(self, cfg, **over):
         super().__init__(cfg, **over)
